@@ -231,7 +231,18 @@ impl<S: PageSize> Iterator for PhysFrameRangeInclusive<S> {
     fn next(&mut self) -> Option<Self::Item> {
         if self.start <= self.end {
             let frame = self.start;
-            self.start += 1;
+
+            // If the end of the inclusive range is the last physical frame, incrementing start
+            // until it is greater than the end would leave the set of valid addresses. So only
+            // increment while there is a next frame in the range; after the last frame make
+            // the range empty in a way that is always representable.
+            if self.start < self.end {
+                self.start += 1;
+            } else if self.start.start_address().is_null() {
+                self.start += 1;
+            } else {
+                self.end = PhysFrame::containing_address(PhysAddr::zero());
+            }
             Some(frame)
         } else {
             None
